@@ -5,8 +5,12 @@ case (1 (no_color clicolor_force clicolor) target tty_only out_tty err_tty chunk
      one ConsoleAppender::append in a child process with exactly that environment, stdout and
      stderr each attached to a fresh pty (raw mode) or a pipe; variables () unset | ( value );
      target 0 stdout / 1 stderr; chunks = pattern tree: (0 text) | (1) {l} | (2) {m} | (3) {n} |
-     (4 ( chunk ... )) {h(..)}
-observable: bytes written by set_style | ( stdout_bytes stderr_bytes ) of the child (exit code 0)"""
+     (4 ( chunk ... )) {h(..)} | (5 (min max right fill) ( chunk ... )) {h(..):SPEC} with min/max
+     0 = absent, k+1 = width k, right 0/1, fill one character
+case (2 chunks level msg): PatternEncoder::encode of that pattern into AnsiWriter<Vec<u8>> (colour on)
+observable: bytes written by set_style / encode | ( stdout_bytes stderr_bytes ) that have reached the
+     child's streams when append returns: the child then terminates with _exit, without std's at-exit
+     flush of stdout, so bytes append left in a user-space buffer are lost exactly as under a kill"""
 import concurrent.futures
 import os
 import pty
@@ -25,7 +29,14 @@ RULE = ("(i) all 243 styles (9 text x 9 background x 3 intensity) through AnsiWr
         "on/off x pattern in {plain `{l} {m}{n}`, `{h({l})} {m}{n}` at each of the 5 levels} = the full "
         "2592-case matrix in both tiers; plus 400 (quick) / 6000 (thorough) random cases with other values "
         "(empty, 00, yes, false, 1 with spaces, a non-Unicode byte), nested and repeated highlight "
-        "groups, non-ASCII messages. non-trivial = a process-level case or a style with at least one "
+        "groups, non-ASCII messages. (iii) highlight groups carrying a format spec: max only {1,3,5,8}, "
+        "min only {4,8} x both alignments, (min,max) in {(3,5),(5,5),(8,8),(2,8)} x both alignments, fills "
+        "{space, _, e-acute}, as `{h({m}):SPEC}tail` and nested `[{h(<{h({m})}|):SPEC}]`, messages of 0-12 "
+        "characters (shorter than / equal to / longer than the width; multi-byte), 5 levels, through "
+        "AnsiWriter<Vec<u8>>; a 288-case subset through child processes (env none / CLICOLOR_FORCE=1 / "
+        "NO_COLOR=1, pty and pipe). (iv) patterns WITHOUT a trailing newline (`{m}`, `{h({l} {m})}`, "
+        "`{h({l} {m}{n})}`) x 27 environments x target x tty_only x pty/pipe: the bytes must be on the "
+        "stream when append returns. non-trivial = a process-level case or a style with at least one "
         "attribute; distinct = distinct case line")
 ASSUMPTIONS = [
     "unix code path (isatty via libc); the Windows console path is not exercised",
@@ -33,6 +44,8 @@ ASSUMPTIONS = [
     "messages and literal text contain no ESC byte, so every ESC on the stream comes from a style request",
     "a variable whose value is not valid Unicode behaves as unset (std::env::var returns Err)",
     "COLOR_MODE is read once per process; each case is its own process",
+    "for groups with a format spec the independent oracle checks colour policy and the order of style requests / resets only (text layout under widths is C10's subject); exact bytes are compared with the model's width writers (Model/Console.v apply_params)",
+    "width-spec families use fills from {space, _, e-acute} and widths <= 8; the sink accepts every write completely",
     "the exact colours Highlight picks per level are taken from the model (the property only requires one well-formed request per group and a reset after it)",
 ]
 TRUSTED = ["Python's pty/tty modules and the kernel's pty line discipline in raw mode (bytes pass unchanged)",
@@ -57,6 +70,23 @@ def pcase(env, target, tty_only, out_tty, err_tty, chunks, level, msg="hello"):
             chunks, level, msg]
 
 
+def spec(mn=None, mx=None, right=False, fill=" "):
+    return [0 if mn is None else mn + 1, 0 if mx is None else mx + 1, int(right), fill]
+
+
+SPECS = ([spec(mx=m) for m in (1, 3, 5, 8)]
+         + [spec(mn=m, right=r, fill=f) for m in (4, 8) for r in (False, True) for f in (" ", "_")]
+         + [spec(mn=a, mx=b, right=r, fill=f) for (a, b) in ((3, 5), (5, 5), (8, 8), (2, 8))
+            for r in (False, True) for f in (" ", "\u00e9")])
+WIDTH_MSGS = ["", "a", "ab", "abc", "abcd", "abcde", "abcdef", "abcdefgh", "abcdefghi", "abcdefghijkl",
+              "n\u00e9\u20ac\U0001d11ex", "\u00e9\u00e9\u00e9\u00e9\u00e9"]
+
+
+def width_patterns(sp):
+    return [[[5, sp, [[2]]], [0, "tail"]],
+            [[0, "["], [5, sp, [[0, "<"], [4, [[2]]], [0, "|"]]], [0, "]"]]]
+
+
 def rand_chunks(rng, depth):
     out = []
     for _ in range(rng.range(1, 3)):
@@ -69,6 +99,8 @@ def rand_chunks(rng, depth):
             out.append([2])
         elif k == 3 or depth == 0:
             out.append([0, "-"])
+        elif rng.chance(1, 3):
+            out.append([5, rng.choice(SPECS), rand_chunks(rng, depth - 1)])
         else:
             out.append([4, rand_chunks(rng, depth - 1)])
     return out
@@ -82,6 +114,10 @@ def corpus():
         pcase(("1", "1", None), 0, False, True, True, chunks_hl(), 3),        # NO_COLOR beats FORCE
         pcase(("0", "1", "0"), 1, False, False, False, chunks_hl(), 5),       # FORCE beats CLICOLOR=0
         [0, 2, 5, 1],
+        [2, width_patterns(spec(mx=1))[0], 1, "a"],                              # seeded C18-2
+        [2, width_patterns(spec(mx=5))[1], 1, "abcde"],
+        pcase((None, "1", None), 0, False, False, False, [[4, [[1], [0, " "], [2]]]], 2),   # seeded C18-4
+        pcase((None, None, None), 0, False, True, True, [[2]], 3),
     ]
 
 
@@ -102,6 +138,30 @@ def cases(rng, tier):
                     for err_tty in (False, True):
                         for (chunks, lv) in pats:
                             out.append(pcase(env, target, tty_only, out_tty, err_tty, chunks, lv))
+    # (iii) highlight groups with a format spec, through AnsiWriter<Vec<u8>> ...
+    for sp in SPECS:
+        for pat in width_patterns(sp):
+            for msg in WIDTH_MSGS:
+                for lv in range(1, 6):
+                    out.append([2, pat, lv, msg])
+    # ... and a subset through real console appenders
+    for sp in (spec(mx=5), spec(mn=8, mx=8), spec(mn=8, right=True), spec(mn=6, mx=8, right=True, fill="_")):
+        for pat in width_patterns(sp):
+            for msg in ("abc", "abcde", "abcdefgh"):
+                for lv in (1, 4):
+                    for env in ((None, None, None), (None, "1", None), ("1", None, None)):
+                        for t in (False, True):
+                            out.append(pcase(env, 0, False, t, t, pat + [[3]], lv, msg))
+    # (iv) no trailing newline: the record must be on the stream when append returns
+    k = 0
+    for env in envs:
+        for target in (0, 1):
+            for tty_only in (False, True):
+                for tgt_tty in (False, True):
+                    out_tty, err_tty = (tgt_tty, not tgt_tty) if target == 0 else (not tgt_tty, tgt_tty)
+                    for chunks in ([[2]], [[4, [[1], [0, " "], [2]]]], [[4, [[1], [0, " "], [2], [3]]]]):
+                        k += 1
+                        out.append(pcase(env, target, tty_only, out_tty, err_tty, chunks, (2, 4, 1)[k % 3], "prompt> "))
     # other values, nested groups, non-ASCII messages
     odd = [None, "0", "1", "", "00", "yes", "false", " 0", "0 ", b"\xff", "é"]
     for _ in range(400 if not thorough else 6000):
@@ -113,12 +173,14 @@ def cases(rng, tier):
 
 
 def nontrivial(c):
-    return c[0] == 1 or any(c[1:])
+    return c[0] in (1, 2) or any(c[1:])
 
 
 def classify(c):
     if c[0] == 0:
         return "style"
+    if c[0] == 2:
+        return "ansiwriter pattern"
     _, env, target, tty_only, out_tty, err_tty, chunks, lv, msg = c
     return "proc target=%s tty_only=%d tty=%d" % ("out" if target == 0 else "err", tty_only,
                                                   out_tty if target == 0 else err_tty)
@@ -139,15 +201,32 @@ def render_pattern(chunks):
             s += "{m}"
         elif ch[0] == 3:
             s += "{n}"
-        else:
+        elif ch[0] == 4:
             s += "{h(" + render_pattern(ch[1]) + ")}"
+        else:
+            mn, mx, right, fill = ch[1]
+            fill = _b(fill).decode("utf-8")
+            sp = ""
+            if mn or right or fill != " ":
+                sp += (fill if fill != " " else "") + (">" if right else "<")
+            if mn:
+                sp += str(mn - 1)
+            if mx:
+                sp += "." + str(mx - 1)
+            s += "{h(" + render_pattern(ch[2]) + "):" + sp + "}"
     return s
+
+
+def has_spec(chunks):
+    return any(ch[0] == 5 or (ch[0] in (4, 5) and has_spec(ch[-1])) for ch in chunks)
 
 
 def describe(c):
     if c[0] == 0:
         cols = [None, "Black", "Red", "Green", "Yellow", "Blue", "Magenta", "Cyan", "White"]
         return {"set_style": {"text": cols[c[1]], "background": cols[c[2]], "intense": [None, False, True][c[3]]}}
+    if c[0] == 2:
+        return {"ansiwriter_pattern": render_pattern(c[1]), "level": LEVELS[c[2]], "message": _b(c[3]).decode("utf-8")}
     _, env, target, tty_only, out_tty, err_tty, chunks, lv, msg = c
     return {"env": {n: (_b(v[0]).decode("utf-8", "backslashreplace") if v else None) for n, v in zip(ENV_NAMES, env)},
             "target": "stdout" if target == 0 else "stderr", "tty_only": bool(tty_only),
@@ -226,11 +305,13 @@ def run_impl(ctx, cases_, lines):
     vc = ctx["vc"]
     exe = ctx["vh"]
     res = [None] * len(cases_)
-    idx0 = [i for i, c in enumerate(cases_) if c[0] == 0]
-    got = vc.run_lines([exe], [lines[i] for i in idx0], timeout_per_batch=300)
+    idx0 = [i for i, c in enumerate(cases_) if c[0] in (0, 2)]
+    got = vc.run_lines([exe], [lines[i] if cases_[i][0] == 0 else
+                               vc.show([2, render_pattern(cases_[i][1]), cases_[i][2], cases_[i][3]])
+                               for i in idx0], timeout_per_batch=300)
     for i, g in zip(idx0, got):
         res[i] = g
-    idx1 = [i for i, c in enumerate(cases_) if c[0] != 0]
+    idx1 = [i for i, c in enumerate(cases_) if c[0] == 1]
     with concurrent.futures.ThreadPoolExecutor(max_workers=12) as ex:
         for i, g in zip(idx1, ex.map(lambda i: run_child(exe, cases_[i]), idx1)):
             res[i] = g
@@ -251,7 +332,7 @@ def model_lines(ctx, cases_, lines, impl_lines):
     vc = ctx["vc"]
     out = []
     for c, line in zip(cases_, lines):
-        if c[0] == 0:
+        if c[0] != 1:
             out.append(line)
         else:
             out.append(vc.show([1, [_unicode_or_unset(v) for v in c[1]]] + list(c[2:])))
@@ -329,7 +410,7 @@ def expected_tokens(chunks, lv, msg, colour):
         elif ch[0] == 3:
             toks.append(("t", b"\n"))
         else:
-            inner = expected_tokens(ch[1], lv, msg, colour)
+            inner = expected_tokens(ch[-1], lv, msg, colour)
             if colour and lv in STYLED:
                 toks += [("s",)] + inner + [("r",)]
             else:
@@ -367,7 +448,13 @@ def proc_oracle(c, iv):
     if stream == b"":
         return ("appender is silent although %s" % ("its target is a terminal" if tty_only else "it is unrestricted"), True)
     colour = (not _active(env[0])) and (_active(env[1]) or ((not _is_zero(env[2])) and tty_))
-    # tokenise the stream
+    d = shape_check(stream, chunks, lv, msg, colour)
+    return (d, False)
+
+
+def shape_check(stream, chunks, lv, msg, colour):
+    """tokenise into text / style request / reset with the independent SGR reader and compare with
+    what the pattern tree requires"""
     toks, pos = [], 0
     state = (5, 5, 2)
     for m in SGR_RE.finditer(stream):
@@ -375,21 +462,36 @@ def proc_oracle(c, iv):
             toks.append(("t", stream[pos:m.start()]))
         new = sgr_decode(m.group(0), state)
         if new is None:
-            return ("malformed SGR sequence %r" % m.group(0), False)
+            return "malformed SGR sequence %r" % m.group(0)
         toks.append(("r",) if new == (0, 0, 0) else ("s",))
         state = new
         pos = m.end()
     if pos < len(stream):
         toks.append(("t", stream[pos:]))
     if any(b"\x1b" in t[1] for t in toks if t[0] == "t"):
-        return ("stray ESC outside a well-formed SGR sequence: %r" % stream, False)
+        return "stray ESC outside a well-formed SGR sequence: %r" % stream
     has_sgr = any(t[0] != "t" for t in toks)
     if has_sgr and not colour:
-        return ("escape sequences although colour is disabled: %r" % stream, False)
+        return "escape sequences although colour is disabled: %r" % stream
     want = _merge(expected_tokens(chunks, lv, msg, colour))
-    if _merge(toks) != want:
-        return ("stream %r does not have the shape %r (text / style request / reset)" % (stream, want), False)
-    return (None, False)
+    got = _merge(toks)
+    if has_spec(chunks):
+        # widths truncate / pad the text (C10's subject): only the style requests and resets, in order
+        want = [t for t in want if t[0] != "t"]
+        got = [t for t in got if t[0] != "t"]
+        if got != want:
+            return ("stream %r has style requests / resets %r, the pattern's highlight groups require %r "
+                    "(every highlighted group is followed by a reset)" % (stream, got, want))
+        return None
+    if got != want:
+        return "stream %r does not have the shape %r (text / style request / reset)" % (stream, want)
+    return None
+
+
+def ansi_oracle(c, iv):
+    if not isinstance(iv, bytes) or iv == b"panic":
+        return "encode into AnsiWriter failed: %r" % (iv,)
+    return shape_check(iv, c[1], c[2], c[3], True)
 
 
 def in_known_class(c):
@@ -399,7 +501,7 @@ def in_known_class(c):
 def judge(c, iv, mv):
     """('ok', None) | ('fail', text): the property fails on this case | ('corr', text): the property
     holds but the bytes are not the model's (the model no longer describes the code)"""
-    d = style_oracle(c, iv) if c[0] == 0 else proc_oracle(c, iv)[0]
+    d = style_oracle(c, iv) if c[0] == 0 else ansi_oracle(c, iv) if c[0] == 2 else proc_oracle(c, iv)[0]
     if d is not None:
         return ("fail", d + ("" if iv == mv else " [model: %r]" % (mv,)))
     if iv != mv:
